@@ -16,7 +16,13 @@
 rlbox_load_structs_from_library(vlib);
 
 using namespace vc;
+#ifdef C07_WIDE
+using Cfg = mb::cfg<uint16_t, mb::abi_wide, mb::MASK, 2>;
+#  define WSEL(a, b) b
+#else
 using Cfg = mb::cfg<uint16_t, mb::abi_lp32, mb::MASK, 2>;
+#  define WSEL(a, b) a
+#endif
 using SB = mb::mbox<Cfg>;
 using sbx_t = rlbox::rlbox_sandbox<SB>;
 template<class T>
@@ -82,9 +88,9 @@ struct gw;
     static constexpr bool sgn = S;                                                                                 \
     static constexpr const char* n = #T;                                                                           \
   };
-GW(bool, 1, false) GW(char, 1, true) GW(signed char, 1, true) GW(unsigned char, 1, false) GW(short, 2, true) GW(unsigned short, 2, false)
-GW(int, 4, true) GW(unsigned, 4, false) GW(long, 4, true) GW(unsigned long, 4, false) GW(long long, 8, true) GW(unsigned long long, 8, false)
-GW(E4, 4, true) GW(char16_t, 2, false) GW(char32_t, 4, false)
+GW(bool, 1, false) GW(char, 1, true) GW(signed char, 1, true) GW(unsigned char, 1, false) GW(short, WSEL(2, 4), true) GW(unsigned short, WSEL(2, 4), false)
+GW(int, WSEL(4, 8), true) GW(unsigned, WSEL(4, 8), false) GW(long, WSEL(4, 8), true) GW(unsigned long, WSEL(4, 8), false) GW(long long, 8, true) GW(unsigned long long, 8, false)
+GW(E4, 4, true) GW(char16_t, WSEL(2, 4), false) GW(char32_t, WSEL(4, 8), false)
 #undef GW
 
 static void set_bg(uint8_t pat)
@@ -553,7 +559,9 @@ int main(int argc, char** argv)
   IT(long long) IT(unsigned long long)
   if (only.empty() || only == "float") float_type<float>(blk);
   if (only.empty() || only == "double") float_type<double>(blk);
+#  ifndef C07_WIDE
   if (only.empty() || only == "int*" || only == "fn" || only == "long[3]" || only == "int*[2]" || only == "VS") pointer_types(blk);
+#  endif
 #endif
   stat("evaluations", n_eval);
   stat("nontrivial", n_nontriv);
